@@ -92,6 +92,7 @@ package newick
 //@     invariant [well_formed] pw(p) && p.s == old(p.s) && p.s.r == old(p.s.r)
 //@     invariant [measure_does_not_grow] pm(p) <= old(pm(p))
 //@     decreases pm(p) + (commenttoken == EOF ? 0 : 1)
+//@     step [every_piece_of_the_comment_is_kept_in_reading_order] next(comment) == comment + commentlit
 
 //@ func (*io/newick.NodeStack).Clear
 //@   requires ns != nil
